@@ -20,7 +20,7 @@ RULE = ("per method (14 names): uniform random byte strings; bit/byte mutations 
 
 
 def budget(tier):
-    return 120 if tier == "quick" else 2500      # per method
+    return 120 if tier == "quick" else 8000      # per method
 
 
 def judge(declen):
